@@ -75,6 +75,16 @@ class Report(object):
             # deferred: a tree that lost subjects AND shows a violation is reported as a violation (cli decides)
             self.count_failures.append((rule, "only %d subject(s) found, at least %d confirmed by reading - anchor lost" % (n, minimum)))
 
+    def attempt(self, fn, *args, **kw):
+        """Run one group of rules; an analysis error in it is deferred like a count guard (a violation found by another group
+        is still reported; without any violation the run ends as an analysis error, never as a pass)."""
+        from .loader import AnalysisError
+        try:
+            return fn(*args, **kw)
+        except AnalysisError as e:
+            self.count_failures.append((e.rule, e.reason))
+            return None
+
     # -- results --------------------------------------------------------------
     def violations(self):
         return [o for o in self.obligations if not o.ok]
